@@ -140,6 +140,21 @@ Section RngProofs.
     - exfalso. apply (orbit_outputs_distinct (E (r_key r)) (r_seed r) (S (length ns)) Hinj Hopen) with (i := S j) (j := S i); [lia|symmetry; exact Heq].
   Qed.
 
+  (* what sess.go asks for: fillRand of a 12- or 16-byte nonce is exactly one Read *)
+  Lemma fill_rand_single f n r :
+    (forall k s, length (E k s) = 16%nat) -> 0 < n <= 16 ->
+    fill_rand key E fresh (S (S f)) n r = rng_read key E fresh n r.
+  Proof.
+    intros Hlen Hn. cbn [fill_rand].
+    destruct (Z.leb_spec n 0) as [H0|H0]; [lia|].
+    rewrite read_out by lia. cbv beta iota zeta.
+    set (r1 := update_seed key fresh r). set (s := E (r_key r1) (r_seed r1)).
+    assert (Hg : Z.of_nat (length (firstn (Z.to_nat n) s)) = n).
+    { rewrite firstn_length. unfold s. rewrite Hlen. lia. }
+    rewrite Hg. destruct (Z.leb_spec n 0) as [H1|H1]; [lia|].
+    rewrite Z.sub_diag. cbn [Z.leb Z.compare]. rewrite app_nil_r. reflexivity.
+  Qed.
+
 End RngProofs.
 
 (* ---- non-vacuity: the toy block function of the harness, a short run from a fresh generator *)
